@@ -262,8 +262,30 @@ var c13LieVarsExtra = func() []c13LieVar {
 	return out
 }()
 
+// c13LieVarsCompound is a third block (after the second, for the same reason): type confusion with a short
+// content - a primitive element re-tagged as another universal type (the string, time and small scalar types that
+// the first block's tag list leaves out) and, at the same time, cut to its first 0..3 content octets or kept.
+// DER structures only (raw layouts have no tags).
+const c13LieRetag = 300
+
+var c13RetagTags = []byte{0x1e, 0x13, 0x16, 0x14, 0x1c, 0x0c, 0x17, 0x18, 0x01, 0x0a}
+
+var c13LieVarsCompound = func() []c13LieVar {
+	var out []c13LieVar
+	for ti, tag := range c13RetagTags {
+		for ci, cn := range []string{"", "+empty", "+keep1", "+keep2", "+keep3"} {
+			out = append(out, c13LieVar{c13LieRetag, ti*8 + ci, fmt.Sprintf("retag%02x%s", tag, cn)})
+		}
+	}
+	return out
+}()
+
 func (a *c13Art) lieItems() int {
-	return a.lieElems()*len(c13LieVars) + len(a.byz) + a.byzN + a.lieElems()*len(c13LieVarsExtra)
+	n := a.lieElems()*len(c13LieVars) + len(a.byz) + a.byzN + a.lieElems()*len(c13LieVarsExtra)
+	if a.root != nil {
+		n += a.lieElems() * len(c13LieVarsCompound)
+	}
+	return n
 }
 
 // nextSibling returns the Flatten index of the next sibling of element idx (-1 if none).
@@ -301,8 +323,17 @@ func (a *c13Art) lie(it int) ([]byte, string) {
 			// second block of element lies
 			x := b - a.byzN
 			nx := len(c13LieVarsExtra)
-			if x < 0 || x >= ne*nx {
+			if x < 0 {
 				return nil, ""
+			}
+			if x >= ne*nx {
+				// third block
+				x -= ne * nx
+				nc := len(c13LieVarsCompound)
+				if a.root == nil || x >= ne*nc {
+					return nil, ""
+				}
+				return a.lieVariant(x/nc, c13LieVarsCompound[x%nc])
 			}
 			return a.lieVariant(x/nx, c13LieVarsExtra[x%nx])
 		}
@@ -333,6 +364,23 @@ func (a *c13Art) lieVariant(el int, v c13LieVar) ([]byte, string) {
 		}
 		var der []byte
 		switch v.kind {
+		case c13LieRetag:
+			c := a.root.Clone()
+			t := c.Flatten()[el]
+			if t.Children != nil || t.Tag&0x20 != 0 {
+				return nil, ""
+			}
+			tag := c13RetagTags[(v.k/8)%len(c13RetagTags)]
+			if keep := v.k%8 - 1; keep >= 0 {
+				if len(t.Content) < keep {
+					return nil, ""
+				}
+				t.Content = t.Content[:keep]
+			} else if tag == t.Tag {
+				return nil, ""
+			}
+			t.Tag = tag
+			der = c.Encode()
 		case c13LieKeep1, c13LieKeep2, c13LieKeepN:
 			keep := 1 + v.kind - c13LieKeep1
 			if v.kind == c13LieKeepN {
